@@ -325,6 +325,7 @@ def _feature_flags(case):
 
 # ---------------------------------------------------------------------- C04
 class C04:
+    rule_extra = ('Later additions: content path spelled with trailing / doubled separators, dot segments or relative to the cwd (20 %), piece lengths of 2-4 MiB with files of several MiB (3 %), metafiles edited after creation, earlier failing rechecks in the same process.')
     id = "C04"
     quick, thorough = 2000, 40000
     timeout = 120
@@ -379,6 +380,7 @@ class C04:
 
 # ---------------------------------------------------------------------- C05
 class C05:
+    rule_extra = C04.rule_extra
     id = "C05"
     quick, thorough = 2000, 40000
     timeout = 120
@@ -491,6 +493,7 @@ class C05:
 
 # ---------------------------------------------------------------------- C16
 class C16:
+    rule_extra = C04.rule_extra
     id = "C16"
     quick, thorough = 2000, 40000
     timeout = 120
